@@ -27,6 +27,14 @@ class Unit:
         if extended:
             cg, _ = self.facts.callgraph()
             halt = set(roles.sinks) | set(roles.evaluators) | set(stop)
+            # another operator of the tables is not a helper of this one: a function that merely *mentions* a table
+            # (`LAZY_OPERATOR_MAP.get(key)`) refers, through the constant, to every function bound in it (a direct
+            # call of a bound function is C03 K6's violation, and is followed)
+            bound = {e.fn_key for t in roles.tables for e in t.entries} - {fn_key}
+
+            def directly_called(k):
+                b_ = self.facts.body(k)
+                return {callee_of(t_).get("key") for _, t_ in b_.calls() if callee_of(t_)} if b_ is not None and hasattr(b_, "calls") else set()
             seen = set()
             st = [fn_key]
             while st:
@@ -34,7 +42,8 @@ class Unit:
                 if k in seen or k in halt:
                     continue
                 seen.add(k)
-                st.extend(cg.get(k, ()))
+                dc = directly_called(k)
+                st.extend(x for x in cg.get(k, ()) if x not in bound or x in dc)
             self.bodies = [self.facts.body(k) for k in sorted(seen) if self.facts.body(k) is not None and self.facts.body(k).kind in ("fn", "closure")]
         self.keys = {b.key for b in self.bodies}
 
